@@ -6,12 +6,13 @@
     period (and after the first tick of the epoch, K1).  The trace is any sequence of
     well-formed events over [n] nodes: client operations with any set of acknowledging
     replicas (direct messages lost or delivered), batches of earlier operations delivered
-    to any node any number of times in any order, complete exchanges, and the removal and
-    modification halves of an exchange as separate events in any interleaving. *)
+    to any node any number of times in any order, complete exchanges, the removal and
+    modification halves of an exchange as separate events in any interleaving, runs of the
+    purge task and restarts of a node on its own store, anywhere in the trace. *)
 
 From stdpp Require Import gmap list.
 From Coq Require Import NArith.
-From DC Require Import Ts Orswot OrswotInv OrswotLww OrswotTimely Actor ActorProofs Cluster ClusterProofs.
+From DC Require Import Ts Orswot OrswotInv OrswotLww OrswotTimely Actor ActorProofs Cluster ClusterProofs ClusterPayload.
 Open Scope N_scope.
 
 Section C01.
@@ -70,6 +71,40 @@ Section C01.
       Forall (wf_event H n) es -> (forall t d, (k, t, d) ∉ H) ->
       view (node (crun (cinit n) es) idx).1 k = None.
   Proof. exact (untouched_key_absent H Hvalid Hwithin Hdistinct). Qed.
+  (** Purges and restarts are events of the trace like any other.  Within the period a purge
+      finds nothing to purge and leaves the node as it is; a restart rebuilds a node that
+      shows exactly what it showed and is again a consistent node of the history. *)
+  Theorem C01_purge_changes_nothing :
+    forall x, NInv H x -> (actor_step false true x RPurge SOk).1 = x.
+  Proof. exact (purge_is_noop_within_W H Hvalid Hwithin Hdistinct). Qed.
+
+  Theorem C01_restart_keeps_the_node :
+    forall x, NInv H x -> NInv H (rebuild 2 x.2, x.2) /\ forall k, view (rebuild 2 x.2) k = view x.1 k.
+  Proof. exact (restart_ok H Hvalid Hwithin Hdistinct). Qed.
+
+  (** The bytes.  [pay t] is the payload of the put stamped [t] (stamps are distinct);
+      [pay_event]: the documents carried by client operations and batches carry it.  Once
+      converged, a read of id [k] on EVERY node returns the winner's stamp and bytes if the
+      winner is a put, and nothing if it is a delete. *)
+  Theorem C01_converged_reads :
+    forall (pay : N -> N) n es1 es2 k t d,
+      Forall (wf_event H n) es1 -> Forall (wf_event H n) es2 ->
+      Forall (pay_event pay) (es1 ++ es2) ->
+      is_winner H k t d ->
+      (exists i m acks, CIssue i m acks ∈ es1 /\ (k, t, d) ∈ req_ops (mutation_request 0 m)) ->
+      (forall j i, (j < n)%nat -> (i < n)%nat -> j <> i -> CRepair j i ∈ es2) ->
+      forall idx, (idx < n)%nat ->
+        st_get (node (crun (cinit n) (es1 ++ es2)) idx).2 k = if d then None else Some (t, pay t).
+  Proof. intros pay. exact (converged_reads H pay Hvalid Hwithin Hdistinct). Qed.
+
+  (** ... and a payload is never altered on the way: on every node, after any trace, with
+      every storage outcome, a live row stamped [t] carries [pay t]. *)
+  Theorem C01_bytes_are_the_writes :
+    forall (pay : N -> N) n es idx k t,
+      Forall (pay_event pay) es ->
+      meta (node (crun (cinit n) es) idx).2 k = Some (t, false) ->
+      st_get (node (crun (cinit n) es) idx).2 k = Some (t, pay t).
+  Proof. intros pay. exact (served_bytes pay). Qed.
 End C01.
 
 (** With the acceptance rule before the repair of D1 a lagging node does not converge: its
@@ -127,5 +162,31 @@ Proof.
   - split; [set_solver|]. intros t' d' Hin.
     repeat (apply elem_of_cons in Hin as [Hin|Hin]; [injection Hin as -> ->; vm_compute; congruence|]).
     inversion Hin.
+  - vm_compute. reflexivity.
+Qed.
+
+(** Non-vacuity with purges and restarts in the trace, and the bytes: node 2 is restarted
+    before it has heard anything and again after an exchange, node 0 runs the purge task
+    between its two exchanges; every node ends serving document 2 with the bytes written. *)
+Example C01_nonvacuous_purge_restart :
+  let t1 := mk_ts 90000010 0 0 in
+  let t2 := mk_ts 90000020 0 0 in
+  let t3 := mk_ts 90000030 0 1 in
+  let H := [(1, t1, false); (2, t2, false); (1, t3, true)] in
+  let pay := fun t : N => if t =? t1 then 7 else 8 in
+  let es1 := [CIssue 0%nat (MPut (mkDoc 1 t1 7)) [1%nat]; CRestart 2%nat; CIssue 0%nat (MPut (mkDoc 2 t2 8)) [];
+              CIssue 1%nat (MDel (mkMeta 1 t3)) []] in
+  let es2 := [CRepair 0%nat 1%nat; CPurge 0%nat; CRepair 0%nat 2%nat; CRepair 2%nat 0%nat; CRestart 2%nat;
+              CRepair 1%nat 0%nat; CRepair 1%nat 2%nat; CPurge 1%nat; CRepair 2%nat 1%nat; CRestart 0%nat] in
+  Forall (wf_event H 3%nat) (es1 ++ es2) /\ Forall (pay_event pay) (es1 ++ es2) /\
+  map live_docs (crun (cinit 3%nat) (es1 ++ es2)) = [[(2, (t2, 8))]; [(2, (t2, 8))]; [(2, (t2, 8))]].
+Proof.
+  cbv zeta. split; [|split].
+  - repeat (apply Forall_cons_2; [cbn [wf_event];
+      first [ lia | split; lia
+            | split; [lia|]; split; [|repeat constructor; lia];
+              intros k' t' d' Hx; cbn in Hx; apply elem_of_list_singleton in Hx; injection Hx as -> -> ->; set_solver ]|]).
+    apply Forall_nil_2.
+  - repeat (apply Forall_cons_2; [cbn; first [exact I | vm_compute; reflexivity]|]). apply Forall_nil_2.
   - vm_compute. reflexivity.
 Qed.
